@@ -235,6 +235,8 @@ Section Meta.
   Definition near_edge (c : cfg) (g : list bound) (x : list value) : bool :=
     nltb O (bin_dist (c_vars c) g x (nofZ O 10000000000000000)) (off_margin c).
 
+  Definition near_hill (c : cfg) (g : list bound) (h : hill) : bool := near_edge c g (h_c h).
+
   (* ---- state ---- *)
 
   Record state := mkState {
@@ -298,7 +300,8 @@ Section Meta.
         let gold := st_geom s in
         let eold := st_e s in
         let gradold := st_g s in
-        mkState (st_old s) (st_new s) (st_off_old s) (st_off_new s)
+        (* after the expansion the hills no longer within the margin of the edges leave hills_off_grid *)
+        mkState (st_old s) (st_new s) (filter (near_hill c g') (st_off_old s)) (filter (near_hill c g') (st_off_new s))
           (fun ix => let oix := remap_ix (c_vars c) g' gold ix in
                      if index_ok (gsizes gold) oix then eold oix else n0 O)
           (fun ix k => let oix := remap_ix (c_vars c) g' gold ix in
@@ -413,8 +416,6 @@ Section Meta.
   Definition state_hills (c : cfg) (s : state) : list hill :=
     if negb (c_use_grids c) || c_keep c then st_old s ++ st_new s else st_off_old s ++ st_off_new s.
 
-  Definition near_hill (c : cfg) (g : list bound) (h : hill) : bool := near_edge c g (h_c h).
-
   (* read_state_data: the grids (with their geometry) are those of the file; every hill of the file is
      appended to hills and, when near the edges of the grid just read, to hills_off_grid; new_hills_begin is
      the end of the list with grids (the hills are on the grids) and its beginning without *)
@@ -464,6 +465,29 @@ Section Meta.
 
   Definition final_state (c : cfg) (hist : list event) : state :=
     fold_left (apply_event c) hist (init_state c).
+
+  (* ---- write_pmf (writeFreeEnergyFile): max(E) - E over the energy grid, times (bias_temperature + T)/bias_temperature
+     for well-tempered runs (single replica, no ebMeta) ---- *)
+
+  (* all index vectors of a grid, in the order of the array (last index fastest) *)
+  Fixpoint all_ix (nx : list Z) : list (list Z) :=
+    match nx with
+    | [] => [[]]
+    | n :: r => flat_map (fun i => map (cons (Z.of_nat i)) (all_ix r)) (seq 0 (Z.to_nat n))
+    end.
+
+  (* colvar_grid_scalar::maximum_value: max = data[0]; if (data[i] > max) max = data[i] *)
+  Definition grid_max (e : list Z -> T) (ixs : list (list Z)) : T :=
+    match ixs with
+    | [] => n0 O
+    | ix0 :: _ => fold_left (fun m ix => if nltb O m (e ix) then e ix else m) ixs (e ix0)
+    end.
+
+  (* add_constant(-1.0 * max); multiply_constant(-1.0); multiply_constant(well_temper_scale) *)
+  Definition pmf_value (c : cfg) (s : state) (temp : T) (ix : list Z) : T :=
+    let mx := grid_max (st_e s) (all_ix (gsizes (st_geom s))) in
+    let v := nmul O (nadd O (st_e s ix) (nmul O (nneg O (n1 O)) mx)) (nneg O (n1 O)) in
+    if c_wt c then nmul O v (ndiv O (nadd O (c_bias_temp c) temp) (c_bias_temp c)) else v.
 
   (* observers used by the correspondence driver *)
   Definition grid_energy_at (s : state) (ix : list Z) : T := st_e s ix.
